@@ -31,7 +31,7 @@ func TypeKey(t types.Type) string {
 		if t.Obj().Pkg() == nil {
 			return t.Obj().Name()
 		}
-		return shortPkg(t.Obj().Pkg().Path()) + "." + t.Obj().Name()
+		return aliasTypeKey(shortPkg(t.Obj().Pkg().Path()) + "." + t.Obj().Name())
 	case *types.Alias:
 		return TypeKey(types.Unalias(t))
 	}
